@@ -23,7 +23,9 @@ def main():
     k = json.load(open(os.path.join(V, "known_findings.json")))
     out = [head.rstrip("\n"), ""]
     out += ["### 12.3 Genuine defects found on the unchanged tree", "",
-            "Every entry below was first reproduced on the real code (native replay under the shim). Repaired ones are single "
+            "Every entry below was first reproduced on the real code (native replay under the shim) -- with one exception, the missing "
+            "fitted-state guard of ShapeDTW, a class that cannot be imported in this sandbox: established by the static sweep and by "
+            "reading the code. Repaired ones are single "
             "`fix:` commits in /repo (pinned suite re-run: 108 passed, unchanged) and are listed in `known_findings.json` under "
             "`fixed` — a fixed entry suppresses nothing. The others are API-level (the repair would change documented behaviour or "
             "a public signature) and are listed under `known`: the check prints `KNOWN-FINDING:` for exactly that obligation / "
